@@ -47,10 +47,11 @@ META = {
     'bounds': {'quick': 'EpsAlg k<=2 transients (5 terms), Shanks table up to 5 terms; Dea limexp in {3,5,7}',
                'thorough': 'EpsAlg k<=3 (7 terms); Dea limexp odd 3..21'},
     'outside_claim': ['EpsAlg on the degenerate branch (a vanishing table difference) and beyond k=3',
-                      'Dea limexp > 21; numeric agreement of Dea with EpsAlg beyond the third term; finiteness in IEEE arithmetic'],
+                      'Dea limexp > 21; agreement of Dea with the epsilon table beyond limexp 7 / on paths where a guard fired; finiteness in IEEE arithmetic'],
     'stubs': ['module global np -> symbolic numpy proxy', 'builtin max -> merged symbolic max (If term)',
               'division by a symbolic table difference -> uninterpreted reciprocal (sound over-approximation of control flow)',
-              'Dea.epstab replaced by an index-recording object array of fresh symbols (arbitrary table)'],
+              'Dea.epstab replaced by an index-recording object array of fresh symbols (arbitrary table)',
+              'Dea-vs-epsilon-table job: the regulariser _HUGE is an infinite value (1/(x-_HUGE) = 0); control decisions follow a rational shadow run'],
     'assumptions': ['exact real arithmetic', 'Dea control graph: table contents arbitrary at every call (over-approximation)'],
     'timeout_ms': {'quick': 60000, 'thorough': 120000},
 }
@@ -70,6 +71,9 @@ def jobs(tier, seed):
                     continue
                 out.append(('dea-limexp%d-n%d-nres%d' % (lim, n, nr), dict(kind='dea', k=n * 10 + nr, limexp=lim)))
     out.append(('dea-first-three', dict(kind='dea3cmp', k=0, limexp=5)))
+    for lim, nterms in (((3, 7), (5, 9), (7, 10)) if th else ((3, 7), (5, 9))):
+        for fam in range(len(SHANKS_FAMILIES)):
+            out.append(('dea-shanks-limexp%d-f%d' % (lim, fam), dict(kind='dea_shanks', k=nterms * 10 + fam, limexp=lim)))
     return out
 
 
@@ -81,6 +85,8 @@ def run_job(job, kind, k, limexp):
         return eps_shanks(job, ex, k)
     if kind == 'dea':
         return dea_state(job, ex, limexp, k // 10, k % 10)
+    if kind == 'dea_shanks':
+        return dea_shanks(job, ex, limexp, k // 10, k % 10)
     return dea_first_three(job, ex)
 
 
@@ -415,6 +421,224 @@ def dea_first_three(job, ex):
                   dict(key='C14:Dea:third-term-differs-from-dea3', kind='dea3cmp'), mandatory=False)
 
 
+
+# --------------------------------------------------------------------------
+# Dea outside its guards returns entries of the epsilon (Shanks) table -- also after the table is full
+# --------------------------------------------------------------------------
+class _Defer(Exception):
+    pass
+
+
+def _deferring(fn):
+    def op(self, o):
+        if isinstance(o, np.ndarray) and o.ndim:
+            return NotImplemented   # numpy applies the operator elementwise (object array)
+        if isinstance(o, CInf):
+            return NotImplemented   # CInf's reflected operator decides
+        return fn(self, o)
+    return op
+
+
+class CInf:
+    """stand-in for the regulariser _HUGE (1.8e308) of Dea: c * OMEGA with OMEGA larger than every finite value, so
+    1/(x - _HUGE) is 0 (in float64 it is below 5.6e-309, i.e. absorbed by rounding unless the other reciprocals are below
+    1e-292) while OMEGA * eps < OMEGA still holds."""
+    __slots__ = ('c',)
+
+    def __init__(self, c=1):
+        self.c = Fraction(c)
+
+    def __neg__(self):
+        return CInf(-self.c)
+
+    def __abs__(self):
+        return CInf(abs(self.c))
+
+    def __sub__(self, o):
+        if isinstance(o, CInf):
+            raise sn.Unsupported('inf - inf')
+        return self
+    __add__ = __radd__ = __sub__
+
+    def __rsub__(self, o):
+        return -self
+
+    def __rtruediv__(self, o):
+        return CQ.of(0.0)
+
+    def __mul__(self, o):
+        if isinstance(o, (CInf, CQ)):
+            raise sn.Unsupported('inf * symbolic')
+        return CInf(self.c * Fraction(float(o)))
+    __rmul__ = __mul__
+
+    def __lt__(self, o):
+        return _cv(self) < _cv(o)
+
+    def __le__(self, o):
+        return _cv(self) <= _cv(o)
+
+    def __gt__(self, o):
+        return _cv(self) > _cv(o)
+
+    def __ge__(self, o):
+        return _cv(self) >= _cv(o)
+
+
+def _cv(o):
+    """ordering key: (coefficient of OMEGA, finite part)"""
+    if isinstance(o, CInf):
+        return (o.c, Fraction(0))
+    if isinstance(o, CQ):
+        return (Fraction(0), o.v)
+    return (Fraction(0), Fraction(float(o)))
+
+
+class CQ:
+    """value of the Dea run: exact rational function of the symbolic terms (SymQ) plus a concrete rational shadow.
+    Control decisions (comparisons) follow the shadow -- a concolic run; every value the real code computes is carried
+    symbolically, and the obligations are identities over ALL terms s_i (they do not depend on the path condition)."""
+    __slots__ = ('q', 'v')
+
+    def __init__(self, q, v):
+        self.q, self.v = q, v
+
+    @staticmethod
+    def of(o):
+        if isinstance(o, CQ):
+            return o
+        if isinstance(o, np.ndarray):
+            raise _Defer()
+        f = Fraction(float(o))
+        return CQ(sn.SymQ(sn.ratval(f)), f)
+
+    @_deferring
+    def __add__(self, o):
+        o = CQ.of(o)
+        return CQ(self.q + o.q, self.v + o.v)
+    __radd__ = __add__
+
+    @_deferring
+    def __sub__(self, o):
+        o = CQ.of(o)
+        return CQ(self.q - o.q, self.v - o.v)
+
+    @_deferring
+    def __rsub__(self, o):
+        return CQ.of(o) - self
+
+    @_deferring
+    def __mul__(self, o):
+        o = CQ.of(o)
+        return CQ(self.q * o.q, self.v * o.v)
+    __rmul__ = __mul__
+
+    @_deferring
+    def __truediv__(self, o):
+        o = CQ.of(o)
+        return CQ(self.q / o.q, self.v / o.v)
+
+    @_deferring
+    def __rtruediv__(self, o):
+        return CQ.of(o) / self
+
+    def __neg__(self):
+        return CQ(-self.q, -self.v)
+
+    def __abs__(self):
+        return self if self.v >= 0 else -self
+
+    def __lt__(self, o):
+        return _cv(self) < _cv(o)
+
+    def __le__(self, o):
+        return _cv(self) <= _cv(o)
+
+    def __gt__(self, o):
+        return _cv(self) > _cv(o)
+
+    def __ge__(self, o):
+        return _cv(self) >= _cv(o)
+
+
+def _alt_series(i):
+    return sum(Fraction((-1) ** j, j + 1) for j in range(i + 1))
+
+
+SHANKS_FAMILIES = [
+    ('log2-partial-sums', _alt_series),
+    ('three-transients', lambda i: Fraction(1) + Fraction(1, 2) ** i + Fraction(3, 10) * Fraction(-7, 10) ** i + Fraction(1, 5) * Fraction(1, 3) ** i
+     + Fraction(1, 7) * Fraction(-2, 5) ** i),
+    ('leibniz+perturbed', lambda i: sum(Fraction((-1) ** j, 2 * j + 1) for j in range(i + 1)) + Fraction(1, 50 * (i + 1) ** 2)),
+    ('negative-slow', lambda i: -3 + Fraction(19, 20) ** i + Fraction(1, 4) * Fraction(-3, 5) ** i + Fraction(1, 9) * Fraction(2, 7) ** i),
+]
+
+
+def _shanks_entry(s, k, n0):
+    """Hankel-determinant form of e_k(S_n0) = eps_{2k}^{(n0)} (independent of the recursion), as SymQ"""
+    num = _det([[s[n0 + i + j] for j in range(k + 1)] for i in range(k + 1)])
+    d2 = lambda t: s[t + 2] - 2 * s[t + 1] + s[t]  # noqa
+    den = _det([[d2(n0 + i + j) for j in range(k)] for i in range(k)])
+    return sn.SymQ(sn._som(num), sn._som(den))
+
+
+def _shanks_value(vals, k, n0):
+    num = _fdet([[vals[n0 + i + j] for j in range(k + 1)] for i in range(k + 1)])
+    d2 = lambda t: vals[t + 2] - 2 * vals[t + 1] + vals[t]  # noqa
+    den = _fdet([[d2(n0 + i + j) for j in range(k)] for i in range(k)])
+    return None if den == 0 else Fraction(num) / Fraction(den)
+
+
+def dea_shanks(job, ex, limexp, nterms, fam):
+    """Real Dea on symbolic terms s_0..s_{nterms-1}; the control path is the one the rational family takes (no guard fires
+    on it, checked).  Proven for ALL s: the value returned after term m is the Shanks entry e_k(S_{m-2k}) for the k the
+    run selected, 1 <= k <= (limexp-1)/2, m-2k >= 0 -- in particular it only involves the last 2k+1 <= limexp terms, also
+    after the table was shifted (m >= limexp)."""
+    name, f = SHANKS_FAMILIES[fam]
+    vals = [Fraction(f(i)) for i in range(nterms)]
+    syms = [z3.Real('s%d' % i) for i in range(nterms)]
+    d = ex.Dea(limexp=limexp)
+    L = d.limexp
+    d.epstab = np.array([CQ.of(0.0) for _ in range(len(d.epstab))], dtype=object)
+    job.paths += 1
+    guard_free = 0
+    for m in range(nterms):
+        try:
+            saved = ex.__dict__['_HUGE']
+            ex.__dict__['_HUGE'] = CInf()
+            try:
+                r, e = d(CQ(sn.SymQ(syms[m]), vals[m]))
+            finally:
+                ex.__dict__['_HUGE'] = saved
+        except Exception as exc:  # noqa
+            job.violation('dea-raises', dict(key='C14:Dea:raises-on-regular-sequence:%s' % type(exc).__name__, kind='dea_shanks',
+                                             family=fam, limexp=limexp, nterms=nterms, exc=repr(exc)[:200]))
+            return
+        if d._n != min(m + 1, L - 1):
+            # a guard (convergence / irregular behaviour) fired on this family: the statement is about the regular path only
+            job.notes.append("family %s: guard fired at term %d (n=%d), later terms not compared" % (name, m, d._n))
+            break
+        if m < 2:
+            job.prove('term %d returned as is' % m, sn.SymQ.of(r.q).eq_term(sn.SymQ(syms[m])), [],
+                      dict(key='C14:Dea:early-term', kind='dea_shanks', family=fam, limexp=limexp, nterms=nterms, m=m))
+            continue
+        guard_free += 1
+        kmax = min(m, L - 1) // 2
+        # which entry of the new diagonal did the run select?  (decided by the shadow; proven symbolically below)
+        sel = [k for k in range(1, kmax + 1) if _shanks_value(vals, k, m - 2 * k) == r.v]
+        if not sel:
+            job.violation('dea-not-shanks', dict(key='C14:Dea:result-not-in-epsilon-table', kind='dea_shanks', family=fam,
+                                                  limexp=limexp, nterms=nterms, m=m,
+                                                  detail='value after term %d is none of e_k(S_(m-2k)), k=1..%d' % (m, kmax)))
+            continue
+        k = sel[-1]
+        want = _shanks_entry(syms, k, m - 2 * k)
+        job.prove('value after term %d == e_%d(S_%d) for all terms (limexp %d)' % (m, k, m - 2 * k, L),
+                  sn.SymQ.of(r.q).eq_term(want), [],
+                  dict(key='C14:Dea:result-not-in-epsilon-table', kind='dea_shanks', family=fam, limexp=limexp, nterms=nterms, m=m))
+    job.confirm('regular path reached beyond the table size', guard_free >= 1)
+    job.validated += 1
+
 # --------------------------------------------------------------------------
 # concretisation / replay on the real class
 # --------------------------------------------------------------------------
@@ -468,6 +692,28 @@ def concrete_failures(limexp, length=200):
 
 def replay(cex):
     kind = cex.get('kind')
+    if kind == 'dea_shanks':
+        ex = cm.nd_mods()['ex']
+        name, f = SHANKS_FAMILIES[cex['family']]
+        nterms, limexp = cex['nterms'], cex['limexp']
+        vals = [Fraction(f(i)) for i in range(nterms)]
+        d = ex.Dea(limexp=limexp)
+        L = d.limexp
+        for m in range(nterms):
+            try:
+                r, e = d(float(vals[m]))
+            except Exception as exc:  # noqa
+                return True, 'Dea(limexp=%d) raises %s at term %d of the family %s' % (limexp, type(exc).__name__, m, name)
+            if d._n != min(m + 1, L - 1):
+                return False, 'a guard fired at term %d' % m
+            if m < 2:
+                continue
+            cands = [_shanks_value(vals, k, m - 2 * k) for k in range(1, min(m, L - 1) // 2 + 1)]
+            cands = [float(c) for c in cands if c is not None]
+            if not any(abs(r - c) <= 1e-7 * max(1.0, abs(c)) for c in cands):
+                return True, ('Dea(limexp=%d) on the family %s: value %r after term %d is not an entry e_k(S_(m-2k)) of the exact '
+                              'epsilon table of the last terms (candidates %r)' % (limexp, name, r, m, cands))
+        return False, 'all values are epsilon-table entries'
     ex = cm.nd_mods()['ex']
     if kind == 'eps_threshold':
         thr = cex.get('threshold', 1.0)
